@@ -8,7 +8,9 @@ statement inserted at every position of the replayed source (syntax error, dupli
 UNIQUE / CHECK failure after successful DDL and DML, missing object, FK failure with ?_fk=1; explicit
 BEGIN / COMMIT / ROLLBACK / SAVEPOINT shapes: failing inside an open transaction, ending with an open
 transaction, balanced, COMMIT without BEGIN) or none, plus failures AFTER a fully successful replay
-(invalid --exclude glob, --format template error, unwritable new migration file, plan failing on the target) x
+(invalid --exclude glob, --format template error, unwritable new migration file, plan failing on the target), plus
+inputs that hold nothing to replay (migration directory that is empty / holds only atlas.sum / only a README, schema
+directory without .sql file, empty or comment-only SQL schema, empty HCL schema) x
 dev start states {missing, empty file, empty db, tables+rows, empty table, view only, view+trigger,
 table+index+trigger, revisions table only, libsql_* / sqlite3_* table, virtual tables only (fts4, rtree, fts5 whose
 module the CLI lacks), shadow tables only, sqlite_sequence / sqlite_stat1 only, orphan index row, WAL}.
@@ -16,7 +18,10 @@ module the CLI lacks), shadow tables only, sqlite_sequence / sqlite_stat1 only, 
 Oracle (nothing is asked from Atlas): python sqlite3 dump + integrity_check + sha256 of the dev FILE and
 name->sha256 of the source directory, before and after the single CLI call of the case.
   * dev not empty  => exit != 0 mentioning "not clean", dump identical, file bytes identical
-                      (HCL-only commands never need the dev db on SQLite: dump + bytes identical, refusal not demanded);
+                      (HCL-only commands never need the dev db on SQLite: dump + bytes identical, refusal not demanded;
+                      an input that holds nothing to replay does not excuse the refusal, except a schema given as a
+                      directory without .sql/.hcl file where it is the first source loaded: the CLI rejects it
+                      before opening the dev db — exit != 0 "contains neither SQL nor HCL files" is accepted there);
   * dev empty      => afterwards the file is absent or sqlite_master is empty and integrity_check is ok,
                       whatever the exit status;
   * directory      => every existing file byte-identical, no file removed; the only additions ever permitted
@@ -73,7 +78,7 @@ def build_cases():
     def add(cmd, dev, stname, fail=None, **kw):
         n = len(L.story(stname, ""))
         c = {"cmd": cmd, "dev": dev, "story": stname, "sfx": sfx, "fail": fail,
-             "cuts": kw.pop("cuts", None) or mk_cuts(rng, n + 4), "txnone": False, "fk": False, "sum": "valid", "ckpt": False, "late": None, "busy": None}
+             "cuts": kw.pop("cuts", None) or mk_cuts(rng, n + 4), "txnone": False, "fk": False, "sum": "valid", "ckpt": False, "late": None, "busy": None, "empty": None}
         c.update(kw)
         c["id"] = len(cases)
         cases.append(c)
@@ -176,6 +181,18 @@ def build_cases():
                 for dev in (L.EMPTY_STATES if not ctx.quick() else [L.EMPTY_STATES[ei % 3]]):
                     add(cmd, dev, stname, None, late=late)
                 ei += 1
+    # ---- family 6: inputs that hold nothing to replay x every command x dev start states ----
+    # (empty / atlas.sum-only / README-only migration directory, schema directory without .sql file, empty or
+    #  comment-only SQL schema, empty HCL schema). quick: the plain dirty database for every combination (the
+    #  refusal demand, deterministic) + one state rotating over all start states; thorough: every start state.
+    states = list(L.DEV_STATES)
+    for ci, cmd in enumerate(L.SQL_CMDS + L.HCL_CMDS):
+        if cmd == "apply-hcl-broken":
+            continue
+        for ei2, emp in enumerate(L.empty_combos(cmd)):
+            devs = states if not ctx.quick() else ["tables+rows", [s_ for s_ in states if s_ != "tables+rows"][(ci * 7 + ei2 + ctx.seed) % (len(states) - 1)]]
+            for dev in devs:
+                add(cmd, dev, "A", None, empty=emp, cuts=[1])
     return cases
 
 
@@ -222,12 +239,27 @@ def materialise(c, d):
     sb, _ = slot_stmts("b")
     files["a.sql"] = L.one_file(sa)
     files["b.sql"] = L.one_file(sb)
+    empty = c.get("empty") or {}
+    if "sql" in empty:
+        files["a.sql"] = files["b.sql"] = L.EMPTY_TEXT[empty["sql"]]
+    if "hcl" in empty:
+        files["schema.hcl"] = files["other.hcl"] = L.EMPTY_TEXT[empty["hcl"]]
     write_files(src, files)
     # SQL schema directory: .sql files only, no atlas.sum, not named "migrations"
     ss, _ = slot_stmts("sdir")
     sfiles, _ = L.cut_files(ss, c["cuts"])
-    write_files(os.path.join(src, "schemadir"), {"%02d_part.sql" % (i + 1): v for i, (_, v) in enumerate(sorted(sfiles.items()))})
-    if cmd != "diff-emptydir":
+    if "sdir" in empty:
+        write_files(os.path.join(src, "schemadir"), {"README.md": "# no schema yet\n"} if empty["sdir"] == "readme-only" else {})
+    else:
+        write_files(os.path.join(src, "schemadir"), {"%02d_part.sql" % (i + 1): v for i, (_, v) in enumerate(sorted(sfiles.items()))})
+    if "mig" in empty:
+        # a migration directory without a single migration file: nothing at all / only atlas.sum / only a README (+ atlas.sum)
+        mig = {"README.md": "# no migrations yet\n"} if empty["mig"].startswith("readme") else {}
+        if empty["mig"] in ("sum-only", "readme+sum"):
+            mig["atlas.sum"] = sum_for(dict(mig))
+        info["nfiles"] = 0
+        write_files(os.path.join(src, "mig"), mig)
+    elif cmd != "diff-emptydir":
         sd, failidx = slot_stmts("dir")
         if c.get("ckpt"):
             mig, spans = L.cut_files(st, c["cuts"], txnone=c["txnone"])
@@ -287,6 +319,9 @@ def run_case(c, verbose=False):
     kind = c["fail"]["kind"] if c["fail"] else "none"
     if c.get("late"):
         pc = "after-replay:" + c["late"]
+    if c.get("empty"):
+        pc = "empty-input:" + ",".join("%s=%s" % kv for kv in sorted(c["empty"].items()))
+        ctx.count("variant:empty-input")
     events = {"argv": args, "rc": rc, "outcome": oc, "stderr": err[-600:], "stdout": out[-300:],
               "dev_before": {k: before[k] for k in ("exists", "sha", "size", "side", "master", "integrity")},
               "dev_after": {k: after[k] for k in ("exists", "sha", "size", "side", "master", "integrity")},
@@ -351,11 +386,22 @@ def run_case(c, verbose=False):
         if not refused and rc != 0 and c["sum"] == "stale" and oc == "checksum-error":
             refused = True
             ctx.count("nonempty-dev:stopped-before-dev(checksum)")
+        # A schema given as a directory without any .sql / .hcl file is rejected before the dev database is
+        # opened — only where the unchanged CLI does so (L.empty_expect); everywhere else an input that holds
+        # nothing does not excuse the command from refusing a dev database that is not empty.
+        if c.get("empty") and not spec.get("hcl_only"):
+            exp = L.empty_expect(cmd, c["empty"])
+            if not refused and exp == "no-files" and rc != 0 and L.NO_FILES_MSG in (err + out):
+                refused = True
+                ctx.count("empty-input-on-nonempty-dev:stopped-before-dev(no-files)")
+            elif refused:
+                ctx.count("empty-input-on-nonempty-dev:refused")
         if spec.get("hcl_only"):
             ctx.count("hcl-only-on-nonempty-dev:" + ("exit0" if rc == 0 else "exit!=0"))
         elif not refused:
             v(cls or "C14|nonempty-dev-accepted|%s" % fam,
-              "%s started on a dev database that is not empty (%s: %s): exit %d, %s" % (cmd, c["dev"], [m[:2] for m in users][:4], rc, norm_msg(err) or "no error"))
+              "%s%s started on a dev database that is not empty (%s: %s): exit %d, %s" % (cmd, " with an input that holds nothing to replay %s" % c["empty"] if c.get("empty") else "",
+                                                                                       c["dev"], [m[:2] for m in users][:4], rc, norm_msg(err) or "no error"))
         else:
             ctx.count("nonempty-dev-refused")
         if not same_dump:
@@ -418,7 +464,7 @@ def run_case(c, verbose=False):
         take = skey in _want_samples and not viol
         _want_samples.discard(skey) if take else None
     if take:
-        ctx.sample({"cmd": " ".join(args[:2]), "case": {k: c.get(k) for k in ("cmd", "dev", "story", "fail", "txnone", "fk", "sum", "ckpt", "late")},
+        ctx.sample({"cmd": " ".join(args[:2]), "case": {k: c.get(k) for k in ("cmd", "dev", "story", "fail", "txnone", "fk", "sum", "ckpt", "late", "empty")},
                     "rc": rc, "outcome": oc, "stderr": norm_msg(err), "dev_before": [m[:2] for m in before["master"]],
                     "dev_after": [m[:2] for m in after["master"]], "dev_bytes_identical": same_bytes, "dir_delta": dd}, cap=6)
     return bool(viol)
@@ -434,7 +480,8 @@ def main():
     # spread the expensive / cheap cases evenly over the workers, deterministically
     ctx.par(cases, run_case)
     cnt = ctx.counters
-    need = ["outcome:ok", "outcome:refused-not-clean", "outcome:statement-error", "dev-class:empty", "dev-class:nonempty", "late-failure-reached"]
+    need = ["outcome:ok", "outcome:refused-not-clean", "outcome:statement-error", "dev-class:empty", "dev-class:nonempty", "late-failure-reached",
+            "empty-input-on-nonempty-dev:refused", "empty-input-on-nonempty-dev:stopped-before-dev(no-files)"]
     missing = [k for k in need if not cnt.get(k)]
     reached, notreached = cnt.get("injected-failure:reached(exit!=0)", 0), cnt.get("injected-failure:not-reached(exit0)", 0)
     ctx.finish("dev file dumped by python sqlite3 + sha256 + source dir hashes around every CLI call: non-empty dev => refused "
